@@ -145,7 +145,11 @@ class IndexTyper:
         """domain of a position in `cont` (enumerate counter / range(len()))"""
         ax = self.axes_of(cont)
         if ax:
-            return ax[0]
+            # position in the EVSE mapping (insertion order) is the station position: station_ids is list(self._EVSEs.keys())
+            return SPOS if (ax[0] == SID and last_name(self._base(cont)) == "_EVSEs") else ax[0]
+        if isinstance(cont, ast.Call) and call_name(cont) in ("values", "keys", "items") and isinstance(cont.func, ast.Attribute) and not cont.args \
+                and last_name(cont.func.value) == "_EVSEs":
+            return SPOS
         nm = last_name(self._base(cont))
         if nm in SESSION_LISTS or (isinstance(cont, ast.Call) and call_name(cont) in ("sorted", "_sort_fn", "deque")):
             return QPOS
